@@ -138,6 +138,9 @@ func runC17(r *report.Run) {
 		check(s)
 	}
 	r.Count("random_strings", int64(n))
+	if r.Thorough() {
+		runNativeFuzz(r, "FuzzQuote", 3000000)
+	}
 }
 
 func replayC17(r *report.Run, c json.RawMessage) {
